@@ -164,7 +164,7 @@ pub fn anim_desc(u: U) -> AnimDesc {
             Some(vec![comp(u)])
         });
     }
-    AnimDesc { states, initial_state: byte(u) % 5, initial_values: vals(u), builder_order: byte(u) % 8 }
+    AnimDesc { states, initial_state: byte(u) % 5, initial_values: vals(u), builder_order: byte(u) % 16 }
 }
 pub fn step(u: U) -> Step {
     match byte(u) % 24 {
